@@ -403,6 +403,35 @@ def _contains_own_continue(toks, a, b):
     return False
 
 
+_r12 = [0]
+
+
+def split_headers(src, log):
+    """R12: `for X in E.split(":::")` -> `for X in verif_split_multi(E)` (core::str::Split cannot be
+    given an iterator spec from outside vstd; the shim's items are exactly parts(E))."""
+    _r12[0] = 0
+    for _ in range(20):
+        toks = tokenize(src)
+        hit = None
+        for (kf, kin, bo, bc) in _for_loops(toks):
+            expr = text(toks, kin + 1, bo).strip()
+            m = re.fullmatch(r'(.+?)\.split\(\s*":::"\s*\)', expr, re.S)
+            if m:
+                hit = (kin, bo, m.group(1).strip())
+                break
+        if not hit:
+            return src
+        kin, bo, recv = hit
+        # hoist the iterator into a `let` (evaluated once either way) so ghost code can name it
+        kf = [x for x in _for_loops(toks) if x[1] == kin][0][0]
+        _r12[0] += 1
+        var = "verif_split%d" % _r12[0]
+        src = (text(toks, 0, kf) + "let %s = verif_split_multi(%s); " % (var, recv) + text(toks, kf, kin + 1)
+               + " %s " % var + text(toks, bo, len(toks)))
+        log.append({"rule": "R12", "receiver": recv, "var": var})
+    raise ExtractError("R12 did not converge")
+
+
 def loop_headers(src, log):
     """R10: enumerate()/&-pattern headers; R11: for-loops containing `continue` -> loop+next()."""
     counter = [0]
